@@ -17,10 +17,10 @@ open VaxisModel.Model.GoBody VaxisModel.Model.GoInterp VaxisModel.Model.Key Vaxi
 
 /-- The named constants of key.go (regenerated values). -/
 def keyConstEnv : Env :=
-  (keyConsts.map fun nv => (nv.1, V.int nv.2)) ++
   (modConsts.map fun nv => (nv.1, V.int (nv.2 : Nat))) ++
   [("EventPress", .int EventPress), ("EventRepeat", .int EventRepeat), ("EventRelease", .int EventRelease),
-   ("EventMotion", .int EventMotion), ("EventPaste", .int EventPaste), ("unicode.MaxRune", .int maxRune)]
+   ("EventMotion", .int EventMotion), ("EventPaste", .int EventPaste), ("unicode.MaxRune", .int maxRune)] ++
+  (keyConsts.map fun nv => (nv.1, V.int nv.2))
 
 def keyStruct : List (String × V) :=
   [("Text", .str []), ("Keycode", .int 0), ("ShiftedCode", .int 0), ("BaseLayoutCode", .int 0),
@@ -44,16 +44,12 @@ def noFuncs : String → List V → Option (V × Str) := fun _ _ => none
 
 /-- `Key.Matches(key, mods)` by running the extracted body. -/
 def matchesGen (u : Uni) (k : Key) (key : Int) (m : Nat) : Option Bool :=
-  match run (ctx u noFuncs) VaxisModel.Gen.KeyBody.matchesBody
-      (bind "k" (.struct (keyFields k)) [("key", .int key), ("modifiers", .ints [(m : Nat)])]) with
-  | .ok (.bool b, _, _) => some b
-  | _ => none
+  (execSs (ctx u noFuncs) VaxisModel.Gen.KeyBody.matchesBody
+      { env := bind "k" (.struct (keyFields k)) [("key", .int key), ("modifiers", .ints [(m : Nat)])] }).retBool
 
 /-- `Key.String()`. -/
 def keyStringGen (u : Uni) (k : Key) : Option Str :=
-  match run (ctx u noFuncs) VaxisModel.Gen.KeyBody.stringBody (bind "k" (.struct (keyFields k)) []) with
-  | .ok (.str s, _, _) => some s
-  | _ => none
+  (execSs (ctx u noFuncs) VaxisModel.Gen.KeyBody.stringBody { env := bind "k" (.struct (keyFields k)) [] }).retStr
 
 /-- The call `k.Matches(r [, mask])` inside `MatchString`. -/
 def matchesCall (u : Uni) (k : Key) : String → List V → Option (V × Str)
@@ -67,10 +63,8 @@ def matchesCall (u : Uni) (k : Key) : String → List V → Option (V × Str)
 
 /-- `Key.MatchString(tgt)`. -/
 def matchStringGen (u : Uni) (k : Key) (tgt : Str) : Option Bool :=
-  match run (ctx u (matchesCall u k)) VaxisModel.Gen.KeyBody.matchStringBody
-      (bind "k" (.struct (keyFields k)) [("tgt", .str tgt)]) with
-  | .ok (.bool b, _, _) => some b
-  | _ => none
+  (execSs (ctx u (matchesCall u k)) VaxisModel.Gen.KeyBody.matchStringBody
+      { env := bind "k" (.struct (keyFields k)) [("tgt", .str tgt)] }).retBool
 
 def seqValue : Seq → V
   | .print g => .tag "ansi.Print" (.struct [("Grapheme", .str g)])
@@ -88,8 +82,6 @@ def keyOfEnv (env : Env) : Option Key :=
 
 /-- `decodeKey(seq)`. -/
 def decodeKeyGen (u : Uni) (s : Seq) : Option Key :=
-  match run (ctx u noFuncs) VaxisModel.Gen.KeyBody.decodeKeyBody [("seq", seqValue s)] with
-  | .ok (_, _, env) => keyOfEnv env
-  | _ => none
+  (execSs (ctx u noFuncs) VaxisModel.Gen.KeyBody.decodeKeyBody { env := [("seq", seqValue s)] }).retEnv.bind keyOfEnv
 
 end VaxisModel.Model.KeyBody
